@@ -8,13 +8,17 @@
    the two public methods the racing goroutines were in).
 
    kind 1: 1 = a method of the table does not exist any more (reflection)
-   kind 2: 100 + f  = race on field f that the table PREDICTS for the blamed
-                      pair (an unprotected pair: a culprit, or a cold
-                      StateNames()) - the known findings
+   kind 2: 100 + f  = race on field f that the table (variant Cur = /repo as it
+                      is) PREDICTS for the blamed pair, i.e. an unprotected pair
+                      involving VerifyStates, SetSchema or Import - the known
+                      findings (f = 0 activeStates, 1 clock, 4 schema,
+                      5 stateNames, 21 resolver index)
            199      = a race the harness could not attribute to any field, in a
                       program for which the table predicts a race
            200 + c  = race on a field of class c (Spec.C12.field_class) for a
-                      pair the table proves protected; c = 0: unattributed
+                      pair the table proves protected; c = 0: unattributed.
+                      The races repaired by f998d9b / f656cf0 / 031458c would
+                      come back as 203 / 209 / 209
    Predicted-but-not-observed never alarms. Proof-free. *)
 From Coq Require Import List Bool Arith NArith String.
 From AMV Require Import Conc.Locks Spec.C12.
@@ -37,11 +41,11 @@ Record c12case := {
 Definition summ_table (v : variant) : list (string * list acc) :=
   map (fun e => (e_name e, csumm (e_prog e))) (api_table v).
 
-Definition summ_warm := Eval vm_compute in (summ_table Warm).
-Definition summ_cold := Eval vm_compute in (summ_table Cold).
+(* /repo as it is: since f998d9b a cold StateNames() is the same entry *)
+Definition summ_cur := Eval vm_compute in (summ_table Cur).
 
 Definition summ_of (warm : bool) (name : string) : option (list acc) :=
-  match find (fun x => String.eqb (fst x) name) (if warm then summ_warm else summ_cold) with
+  match find (fun x => String.eqb (fst x) name) summ_cur with
   | Some x => Some (snd x)
   | None => None
   end.
@@ -67,9 +71,9 @@ Fixpoint cross_pairs (ths : list (list string)) : list (string * string) :=
 Definition known_name (warm : bool) (n : string) : bool :=
   match summ_of warm n with Some _ => true | None => false end.
 
-(* the export copy exists: built before the start and never reset *)
-Definition warm_eff (c : c12case) : bool :=
-  k_warm c && negb (existsb (fun th => existsb is_resetter th) (k_threads c)).
+(* k_warm (the export copy of the state names was built before the start) is
+   recorded but no longer matters for the prediction *)
+Definition warm_eff (c : c12case) : bool := k_warm c.
 
 Definition predicted (c : c12case) : list field :=
   let w := warm_eff c in
@@ -102,4 +106,4 @@ Definition check_all (cases : list (N * c12case)) : list (N * N * N) :=
 (* printed by a tiny .v file that the harness compiles at start-up: the method
    list with footprints (which fields a call reads / writes), the unprotected
    pairs, the field identifiers *)
-Definition dump_footprints := Eval vm_compute in (footprints Warm).
+Definition dump_footprints := Eval vm_compute in (footprints Cur).
